@@ -148,9 +148,6 @@ theorem M.good_mono {G H : Leaf → Prop} (hGH : ∀ l, G l → H l) : ∀ m : M
 
 /-! ### evaluating the (well-founded) simplifier on concrete markers, for the `example`s -/
 
-theorem M.mem_nil (m : M) : M.mem m [] = false := rfl
-theorem M.mem_cons (m x : M) (xs : List M) : M.mem m (x :: xs) = (M.beq m x || M.mem m xs) := by
-  simp [M.mem]
 
 /-- unfolds the simplifier on closed terms (the mutual block is defined by well-founded recursion, so
 `decide`/`rfl` do not evaluate it) -/
